@@ -261,6 +261,10 @@ func reifyStruct(opts *options, orig reflect.Value, cfg *Config) Error {
 		tryInitDefaults(to)
 		numField := to.NumField()
 		for i := 0; i < numField; i++ {
+			// every field is evaluated in a scope of its own (as the entries
+			// of a map are): sibling fields may reference the same setting
+			opts.activeFields = newFieldSet(parentFields)
+
 			fInfo, skip, err := accessField(to, i, opts)
 			if err != nil {
 				return err
